@@ -5,7 +5,12 @@
 // through OneDimensionOptimizationTools::lineSearch, MetaOptimizer (2-3 sub-optimisers over a partition of the variables,
 // step / full, n = 1..3)} on one convex objective of dimension 1..6 from one start, with or without interval
 // constraints (containing start and minimiser), one of the three constraint policies, tolerance 1e-4..1e-10,
-// default or small (20..500) evaluation cap, verbose 0, profiler / message handler null.
+// default or small (20..500) evaluation cap, verbose 0, profiler / message handler null. The optimiser that runs is
+// either the one built and configured directly or a copy of that configured prototype: copy-constructed, clone()-d, or
+// a freshly built optimiser (same or another function object, default settings) to which the prototype was ASSIGNED;
+// the prototype may have been init()-ed before and may be destroyed or kept alive afterwards. Brent's initial interval
+// lies around start and minimiser, around the start only, or entirely to one side of the start (outward bracketing:
+// all laws; inward bracketing: all laws except convergence, which keeps intervals containing the minimiser).
 //   La_termination   optimize() returns: CPU watchdog 60 s (a hang is a violation) and, deterministic and cheap, a run
 //                    started at the exact minimiser with the default cap uses at most 50000 objective evaluations
 //                    (worst legitimate value seen: 3338); the only exception accepted in any law is a
@@ -21,7 +26,8 @@
 //                    isMaximumNumberOfEvaluationsReached() == (counter >= cap)
 //   Le_convergence   strictly convex quadratic, no constraint (or constraints stripped by the *ignore* policy), default
 //                    cap: |x - c|_inf <= K_opt * scale + 1e-9, scale = sqrt(tau * max(1,|d|) * cond / lambda_min)
-//                    (BFGS: two documented extra terms, see the law)
+//                    (BFGS: two documented extra terms, see the law); no claim for a run of a |df| < tau optimiser that
+//                    the default budget cut while its last two iterations still differed by >= tau (see the law)
 //   Lf_feasible_auto automatic policy: every point at which the objective was evaluated satisfies every constraint
 //                    (reference predicate on the bounds), the reported point is feasible, no exception escapes
 //                    (also with the same constraints on the function's own parameters: an infeasible evaluation throws)
@@ -45,7 +51,8 @@
 //   worst seen   bfgs 0.77  cg 6.3  powell 3.7  simplex 6.5 (fixed copy)  simple 0.38  simple-newton 0.39
 //                brent 0.063 / 0.047  golden 0.027 (fixed copy)  newton-1d 0 (exact)  meta 0.7 (2.1 on the fixed copy)
 //   (thorough tier seeds 1 and 2: 30272 + 61395 unexcluded Le cases; plus 8 seeds x 1500 cases on each tree)
-// Debugging: C10_TRACE=1 prints every case before it is run (and its cost), C10_RATIO=x prints Le cases above ratio x.
+// Debugging: C10_TRACE=1 prints every case before it is run (and its cost), C10_RATIO=x prints Le cases above ratio x,
+// C10_KEEP_PROTO=1 never destroys the prototype (a copy that still points into it then shows as a wrong result, not a crash).
 #include "common/pbt.hpp"
 #include "common/bppcommon.hpp"
 
@@ -221,6 +228,13 @@ struct Case {
   vector<double> dir; double dirScale = 1; int dirMode = 0;  // line search
   vector<SubOpt> subs; unsigned metaN = 1;                   // meta
   bool activeSide = false;
+  int ivMode = 0;                        // Brent: where the initial interval lies (see genCase)
+  // how the optimiser that is run was obtained: 0 built and configured directly, 1 copy-constructed from a configured
+  // prototype, 2 clone() of it, 3 a freshly built optimiser (default settings) that the prototype was ASSIGNED to
+  int origin = 0;
+  bool protoInit = false;   // the prototype had init() called (same parameter list) before it was copied
+  bool protoDrop = false;   // the prototype is destroyed before the copy is used (otherwise it outlives the run)
+  bool decoy = false;       // origin 3: the assignment target was built on another function object
 };
 
 struct Filter { int policy = -1; int needCons = -1; bool quadOnly = false; bool allowSmallCap = true; bool allowFunctionCons = false; bool moreSmallCap = false; bool convergence = false; };
@@ -311,18 +325,29 @@ Case genCase(vf::Ctx& c, const Filter& f, const vector<int>& opts) {
   k.tol = c.flag() ? c.logu(1e-10, 1e-4) : c.pick({1e-6, 1e-4, 1e-8, 1e-10});
   if (f.allowSmallCap && c.weighted({3, 2}) == 1) k.cap = static_cast<unsigned>(c.irange(20, 500));
   if (f.moreSmallCap && k.cap == 0 && c.flag()) k.cap = static_cast<unsigned>(c.irange(20, 60));
+  double w1 = 1, w2 = 1;
+  // Brent's initial interval: 0 contains start and minimiser, 1 around the start, 2 to the right of the start (gap w1,
+  // possibly 0), 3 to the left of the start. Nothing in the class documentation ties the start to the interval
+  // ("Brent's algorithm needs 2 initial guesses": setInitialInterval), and the descent clause is quantified over every start.
+  auto brentInterval = [&](int mode) {
+    double s0 = k.start[0], m = k.spec.c[0];
+    k.ivMode = mode;
+    if (mode == 0) { k.xinf = min(s0, m) - w1; k.xsup = max(s0, m) + w2; }
+    else if (mode == 1) { k.xinf = s0 - w1; k.xsup = s0 + w2; }
+    else if (mode == 2) { k.xinf = s0 + w1; k.xsup = s0 + w1 + (w2 > 0 ? w2 : 1); }
+    else { k.xsup = s0 - w1; k.xinf = s0 - w1 - (w2 > 0 ? w2 : 1); }
+    if (!(k.xsup - k.xinf >= 1e-6)) k.xsup = k.xinf + 1;
+  };
   if (k.opt == BRENT_OUT || k.opt == BRENT_IN || k.opt == GOLDEN) {
     double s0 = k.start[0], m = k.spec.c[0];
-    double w1 = c.pick({1.0, 0.0, 0.01, 0.1, 10.0}), w2 = c.pick({1.0, 0.0, 0.01, 0.1, 10.0});
+    w1 = c.pick({1.0, 0.0, 0.01, 0.1, 10.0}); w2 = c.pick({1.0, 0.0, 0.01, 0.1, 10.0});
     int mode = k.opt == BRENT_IN ? 0 : static_cast<int>(c.below(3));
     if (k.opt == GOLDEN) {  // the start value IS one end of the initial interval (the optimiser never looks at the parameter's value)
       if (mode == 0) { k.xinf = s0; k.xsup = max(s0, m) + (w1 > 0 ? w1 : 1); }
       else if (mode == 1) { k.xsup = s0; k.xinf = min(s0, m) - (w1 > 0 ? w1 : 1); }
       else { k.xinf = s0; k.xsup = s0 + (w1 > 0 ? w1 : 1); }
-    } else if (mode == 0) { k.xinf = min(s0, m) - w1; k.xsup = max(s0, m) + w2; }       // contains start and minimiser
-    else if (mode == 1) { k.xinf = s0 - w1; k.xsup = s0 + w2; }                             // around the start
-    else { k.xinf = s0 + w1; k.xsup = s0 + w1 + (w2 > 0 ? w2 : 1); }                        // to the right of the start
-    if (!(k.xsup - k.xinf >= 1e-6)) k.xsup = k.xinf + 1;
+      if (!(k.xsup - k.xinf >= 1e-6)) k.xsup = k.xinf + 1;
+    } else brentInterval(mode);
   }
   if (k.opt == LINESEARCH) { k.dirMode = static_cast<int>(c.below(2)); k.dirScale = c.pick({1.0, 0.1, 10.0, 100.0, 1e-3}); }
   if (k.opt == META) {
@@ -338,6 +363,18 @@ Case genCase(vf::Ctx& c, const Filter& f, const vector<int>& opts) {
     }
     k.metaN = static_cast<unsigned>(c.irange(1, 3));
   }
+  // ---- draws added later, AFTER every older draw: a committed choice vector (replays/C10) still decodes to the same case
+  // (all zero = built directly, interval as before).
+  // Inward bracketing only looks inside the interval it is given, so reaching the minimiser is only demanded of intervals
+  // containing it (convergence law: mode 0); every other clause holds wherever the interval lies.
+  if (k.opt == BRENT_IN && !f.convergence) brentInterval(static_cast<int>(c.below(4)));
+  if (k.opt == BRENT_OUT && k.ivMode == 2 && c.flag()) brentInterval(3);
+  if (k.opt != LINESEARCH) {
+    k.origin = static_cast<int>(c.weighted({4, 1, 1, 3}));
+    if (k.origin) { k.protoInit = c.oneIn(4); k.protoDrop = c.oneIn(4); }
+    if (k.origin == 3) k.decoy = c.flag();
+    if (getenv("C10_KEEP_PROTO")) k.protoDrop = false;
+  }
   return k;
 }
 
@@ -348,21 +385,26 @@ string showCase(const Case& k) {
   o << "} policy=" << PNAME[k.policy] << (k.consOnFunction ? " (function constrained too)" : "") << " tol=" << vf::dec(k.tol) << " cap=";
   if (k.cap) o << k.cap; else o << "default";
   if (k.opt == BRENT_OUT || k.opt == BRENT_IN || k.opt == GOLDEN) o << " interval=[" << vf::dec(k.xinf) << ";" << vf::dec(k.xsup) << "]";
+  if (k.opt == BRENT_OUT || k.opt == BRENT_IN) o << (k.ivMode == 0 ? " (around start and minimiser)" : k.ivMode == 1 ? " (around the start)" : k.ivMode == 2 ? " (right of the start)" : " (left of the start)");
   if (k.opt == LINESEARCH) o << " direction=" << (k.dirMode ? "newton" : "-gradient") << "*" << k.dirScale;
   if (k.opt == META) {
     o << " meta(n=" << k.metaN << ")";
     for (auto& s : k.subs) { o << " [" << ONAME[s.kind] << "," << (s.full ? "full" : "step") << ":"; for (int v : s.vars) o << " x" << v; o << "]"; }
+  }
+  if (k.origin) {
+    o << " optimiser=" << (k.origin == 1 ? "copy-constructed from" : k.origin == 2 ? "clone() of" : k.decoy ? "fresh one built on another function, then assigned" : "fresh one on the same function, then assigned")
+      << " the configured prototype" << (k.protoInit ? " (already init()-ed)" : "") << (k.protoDrop ? " (prototype destroyed afterwards)" : " (prototype kept alive)");
   }
   return o.str();
 }
 
 // ------------------------------------------------------------------ running a case
 struct Marker : public OptimizationListener {
-  const Record* rec = nullptr; vector<size_t> marks; vector<unsigned> counter; size_t atInit = 0, cur = 0;
+  const Record* rec = nullptr; vector<size_t> marks; vector<unsigned> counter; vector<double> value; size_t atInit = 0, cur = 0;
   vector<pair<size_t, size_t>> span;  // evaluations [first, second) of every step (init() may be called again: meta)
   void optimizationInitializationPerformed(const OptimizationEvent&) override { atInit = cur = rec->count(); }
   void optimizationStepPerformed(const OptimizationEvent& e) override {
-    marks.push_back(rec->count()); counter.push_back(e.getOptimizer()->getNumberOfEvaluations());
+    marks.push_back(rec->count()); counter.push_back(e.getOptimizer()->getNumberOfEvaluations()); value.push_back(e.getOptimizer()->getFunctionValue());
     span.push_back({cur, rec->count()}); cur = rec->count();
   }
   bool listenerModifiesParameters() const override { return false; }
@@ -380,6 +422,7 @@ struct Out {
   vector<double> rep, objAt;
   unsigned nEval = 0, cap = 0; bool tolReached = false, maxReached = false;
   size_t lastStepEvals = 0, steps = 0; vector<unsigned> counter;  // counter[k]: getNumberOfEvaluations() when step k+1 was done
+  vector<double> stepValue;                                        // getFunctionValue() when step k+1 was done (what the stop condition reads)
   shared_ptr<Obj> obj;
   double minSeen = INF;
   bool bfgsStepIncrease = false;  // some BFGS iteration ended above the value it started from (see stepIncrease)
@@ -404,6 +447,41 @@ shared_ptr<OptimizerInterface> makeOpt(int kind, shared_ptr<Obj> obj) {
     case BRENT_OUT: case BRENT_IN: return make_shared<BrentOneDimension>(obj);
     case GOLDEN: return make_shared<GoldenSectionSearch>(obj);
     case NEWTON1D: return make_shared<NewtonOneDimension>(obj);
+    default: return nullptr;
+  }
+}
+
+// The optimiser that is run may be a copy of a configured prototype (Case::origin). Every optimiser class relies on the
+// compiler-generated copy operations on top of AbstractOptimizer's (MetaOptimizer defines its own); the copy must be an
+// optimiser in its own right: same function, settings and stop condition, nothing left pointing into the prototype.
+template <class T> shared_ptr<OptimizerInterface> deriveT(const shared_ptr<OptimizerInterface>& proto, int origin, const shared_ptr<OptimizerInterface>& fresh) {
+  auto p = dynamic_pointer_cast<T>(proto);
+  if (origin == 1) return make_shared<T>(*p);
+  if (origin == 2) return shared_ptr<OptimizerInterface>(p->clone());
+  auto w = dynamic_pointer_cast<T>(fresh);
+  *w = *p;
+  return w;
+}
+shared_ptr<OptimizerInterface> derive(int kind, const shared_ptr<OptimizerInterface>& proto, int origin, shared_ptr<Obj> targetFn) {
+  shared_ptr<OptimizerInterface> fresh;
+  if (origin == 3) {
+    if (kind == META) {
+      auto desc = make_unique<MetaOptimizerInfos>();
+      desc->addOptimizer("simple-multi", makeOpt(SIMPLE, targetFn), vector<string>{nm(0)}, 0, MetaOptimizerInfos::IT_TYPE_STEP);
+      fresh = make_shared<MetaOptimizer>(targetFn, std::move(desc), 1);
+    } else fresh = makeOpt(kind, targetFn);
+  }
+  switch (kind) {
+    case BFGS: return deriveT<BfgsMultiDimensions>(proto, origin, fresh);
+    case CG: return deriveT<ConjugateGradientMultiDimensions>(proto, origin, fresh);
+    case POWELL: return deriveT<PowellMultiDimensions>(proto, origin, fresh);
+    case DSM: return deriveT<DownhillSimplexMethod>(proto, origin, fresh);
+    case SIMPLE: return deriveT<SimpleMultiDimensions>(proto, origin, fresh);
+    case SNEWTON: return deriveT<SimpleNewtonMultiDimensions>(proto, origin, fresh);
+    case BRENT_OUT: case BRENT_IN: return deriveT<BrentOneDimension>(proto, origin, fresh);
+    case GOLDEN: return deriveT<GoldenSectionSearch>(proto, origin, fresh);
+    case NEWTON1D: return deriveT<NewtonOneDimension>(proto, origin, fresh);
+    case META: return deriveT<MetaOptimizer>(proto, origin, fresh);
     default: return nullptr;
   }
 }
@@ -470,14 +548,13 @@ Out runCase1(vf::Ctx& c, const Case& k) {
       finish(pl); o.ret = o.fv = o.fRep;
       return o;
     }
-    shared_ptr<OptimizerInterface> opt; vector<shared_ptr<Marker>> bfgsMarkers;
+    shared_ptr<OptimizerInterface> opt, proto; vector<shared_ptr<Marker>> bfgsMarkers;
     if (k.opt == META) {
       auto desc = make_unique<MetaOptimizerInfos>();
       for (auto& s : k.subs) {
         vector<string> names; for (int v : s.vars) names.push_back(nm(v));
         unsigned short der = (s.kind == SNEWTON || s.kind == NEWTON1D) ? 2 : (s.kind == BFGS || s.kind == CG) ? 1 : 0;
         auto so = makeOpt(s.kind, o.obj);
-        if (s.kind == BFGS) { auto m = make_shared<Marker>(); m->rec = &o.obj->rec; so->addOptimizationListener(m); bfgsMarkers.push_back(m); }
         desc->addOptimizer(ONAME[s.kind], so, names, der, s.full ? MetaOptimizerInfos::IT_TYPE_FULL : MetaOptimizerInfos::IT_TYPE_STEP);
       }
       opt = make_shared<MetaOptimizer>(o.obj, std::move(desc), k.metaN);
@@ -492,6 +569,21 @@ Out runCase1(vf::Ctx& c, const Case& k) {
       b->setBracketing(k.opt == BRENT_IN ? BrentOneDimension::BRACKET_INWARD : BrentOneDimension::BRACKET_OUTWARD);
     }
     if (k.opt == GOLDEN) dynamic_pointer_cast<GoldenSectionSearch>(opt)->setInitialInterval(k.xinf, k.xsup);
+    if (k.origin) {
+      // the optimiser configured above is only the prototype: the one that runs is a copy of it
+      if (k.protoInit) opt->init(pl);
+      shared_ptr<Obj> targetFn = k.decoy ? make_shared<Obj>(k.spec, k.spec.c, nullptr) : o.obj;
+      proto = opt;
+      opt = derive(k.opt, proto, k.origin, targetFn);
+      if (k.protoDrop) proto.reset();
+    }
+    // listeners are not copied with an optimiser: attached to the one that runs (and to its own sub-optimisers)
+    if (k.opt == META) {
+      auto& infos = dynamic_pointer_cast<MetaOptimizer>(opt)->optimizers();
+      for (size_t i = 0; i < k.subs.size(); ++i) if (k.subs[i].kind == BFGS) {
+        auto m = make_shared<Marker>(); m->rec = &o.obj->rec; infos.getOptimizer(i)->addOptimizationListener(m); bfgsMarkers.push_back(m);
+      }
+    }
     auto marker = make_shared<Marker>(); marker->rec = &o.obj->rec;
     opt->addOptimizationListener(marker);
     if (k.opt == BFGS) bfgsMarkers.push_back(marker);
@@ -500,7 +592,7 @@ Out runCase1(vf::Ctx& c, const Case& k) {
     o.ret = opt->optimize();
     o.returned = true;
     o.fv = opt->getFunctionValue(); o.nEval = opt->getNumberOfEvaluations(); o.tolReached = opt->isToleranceReached(); o.maxReached = opt->isMaximumNumberOfEvaluationsReached();
-    o.steps = marker->marks.size(); o.counter = marker->counter;
+    o.steps = marker->marks.size(); o.counter = marker->counter; o.stepValue = marker->value;
     if (o.steps >= 1) o.lastStepEvals = marker->marks.back() - (o.steps >= 2 ? marker->marks[o.steps - 2] : marker->atInit);
     finish(opt->getParameters());
     for (auto& m : bfgsMarkers) if (stepIncrease(o.obj->rec, m->span)) o.bfgsStepIncrease = true;
@@ -674,6 +766,24 @@ LAW(Le_convergence, RC, 1500, 50000, 160, "dim >= 2 or start within 1e-6 of the 
   // BFGS reads the bounds from the list handed to init(), not from its own (policy-processed) list: under the ignore
   // policy the search directions are still clipped at the bounds
   if (usesKind(k, BFGS) && k.policy == IGNORE && k.anyCons) c.excludeIfKnown("C10-bfgs-bounds-under-ignore");
+  // "within a tolerance tied to its stopping tolerance" is a claim about runs ended by the stop rule. A run ended by the
+  // evaluation budget (the other documented way to end, first clause of the statement) while its stop rule was still
+  // legitimately unmet claims nothing about the distance: the optimisers that stop on |f_k - f_(k-1)| < tau
+  // (FunctionStopCondition: BFGS, conjugate gradient, the two coordinate-wise ones, Newton 1-D, meta) are exempt when the
+  // library reports "cap reached, tolerance not reached" AND the values it published for the last two iterations still
+  // differ by at least tau (the rule re-evaluated here; a stop test that fails to fire on stagnating values stays a
+  // violation). Seen once in 1.1e6 cases: meta-optimiser, cond 1000, tau 1e-10, full Powell runs inside every round
+  // (25000 evaluations per round): cut after 41 rounds exactly where exact block descent stands after 41 rounds
+  // (error 0.703; the rule |df| < 1e-10 is met at round 127). The other optimisers keep the unconditional claim.
+  {
+    unsigned cap = defaultCap(k.opt);
+    bool fsc = k.opt == BFGS || k.opt == CG || k.opt == SIMPLE || k.opt == SNEWTON || k.opt == NEWTON1D || k.opt == META;
+    size_t ns = o.stepValue.size();
+    if (fsc && !o.tolReached && o.maxReached && o.nEval >= cap && ns >= 2 && std::abs(o.stepValue[ns - 1] - o.stepValue[ns - 2]) >= k.tol) {
+      c.label("budget_cut_before_stop_rule");
+      return;
+    }
+  }
   double err = 0; for (size_t i = 0; i < o.rep.size(); ++i) err = max(err, std::abs(o.rep[i] - k.spec.c[i]));
   double lmin = k.spec.lmin(), cond = k.spec.cond();
   double scale = sqrt(k.tol * max(1.0, std::abs(k.spec.d)) * cond / lmin);
